@@ -25,11 +25,13 @@ def run(chk):
                  dict(name='threads3-preempt2-evicting-cache', threads=3, max_preempt=2, small_cache=2, warm=2, timeout=1500),
                  dict(name='history-seq6-cap2', seq=6, filters=4, capacity=2, timeout=2400),
                  dict(name='history-seq6-cap3', seq=6, filters=4, capacity=3, timeout=2400),
-                 dict(name='history-values-seq6-cap3', seq=6, filters=4, capacity=3, family=2, timeout=2400)]
+                 dict(name='history-values-seq5-cap3', seq=5, filters=4, capacity=3, family=2, timeout=2400),
+                 dict(name='threads2-preempt2-eval', threads=2, max_preempt=2, trace_eval=1, timeout=2400)]
+    jobs.append(dict(name='threads2-preempt1-eval', threads=2, max_preempt=1, trace_eval=1, timeout=300))
     if chk.only:
         jobs = [j for j in jobs if chk.only in j['name']]
     chk.bounds = dict(threads='2 (quick) / 2-3 (thorough)', preemptions='<= 2 (quick) / <= 3 (thorough)',
-                      granularity='every source line of filter_function, _filter_function, _FnWrapper.__init__/get/__del__',
+                      granularity='every source line of filter_function, _filter_function, _FnWrapper.__init__/get/__del__; in the -eval scenarios also of _get_path and _compare',
                       histories='all sequences of 5 (quick) / 6 (thorough) evaluations over 3-4 distinct filters with a cache of 2-3 entries, each step through Grid.filter or a previously obtained function; one concrete history of 1500 distinct filters with a hot filter re-used every 7 steps and functions held across 1500 later compilations (real capacity 500)')
     chk.assumptions = ['a context switch between two lines of the traced functions is the scheduling granularity (switches inside one line, inside pyparsing or inside CPython are not modelled)',
                        'functools.lru_cache itself is thread safe (CPython); in the evicting-cache scenarios it is re-created with capacity 2 (same code, smaller capacity)',
@@ -85,8 +87,8 @@ def run(chk):
                 body = ('sys.path.insert(0, %r)\nfrom vf import sched\nmsg = sched.sequence_run(hszinc, %r, %d, %d)\n'
                         'if msg is not None:\n    VIOLATED(msg)\nHOLDS()\n') % (common.VERIF, [tuple(x) for x in c['schedule']], j.get('capacity', 2), j.get('family', 1))
             else:
-                body = ('sys.path.insert(0, %r)\nfrom vf import sched\nmsg = sched.replay_schedule(hszinc, %d, %d, %r, %d)\n'
-                        'if msg is not None:\n    VIOLATED(msg)\nHOLDS()\n') % (common.VERIF, j.get('threads', 2), j.get('warm', 0), c['schedule'], j.get('small_cache', 0))
+                body = ('sys.path.insert(0, %r)\nfrom vf import sched\nmsg = sched.replay_schedule(hszinc, %d, %d, %r, %d, %d)\n'
+                        'if msg is not None:\n    VIOLATED(msg)\nHOLDS()\n') % (common.VERIF, j.get('threads', 2), j.get('warm', 0), c['schedule'], j.get('small_cache', 0), j.get('trace_eval', 0))
             v = chk.candidate(name, body, '%s: %s (schedule %r)' % (name, c['what'], c['schedule']), model=c['schedule'])
             chk.query(name, 'counterexample:' + v, wall, message=c['what'][:200], schedules=res['schedules'])
             chk.samples.append({'scenario': name, 'counterexample': c['schedule'], 'what': c['what'], 'replay': v})
